@@ -476,6 +476,13 @@ func (ex *Executor) typeAssert(st *State, fr *frame, x *ssa.TypeAssert) Value {
 		ok = App("is!"+tag, SBool, iv)
 		st.Fact(Implies(ok, Neq(iv, IntLit(0))))
 		holds := ex.TypeHolds != nil && ex.TypeHolds(at)
+		if ex.AssumeNonNil != nil {
+			for _, leaf := range iteLeaves(iv) {
+				if ex.AssumeNonNil(leaf) {
+					st.Fact(Neq(leaf, IntLit(0)))
+				}
+			}
+		}
 		if holds {
 			// well-formedness assumption: every non-nil value flowing here
 			// implements the asserted interface
